@@ -36,6 +36,10 @@ pub static mut NEED_SIDE_EQ: bool = false;
 #[cfg(kani)]
 pub static mut SNAPSHOT: [u8; libc::verif::ARENA] = [0; libc::verif::ARENA];
 
+/// Called by the OS model at every event (1 mprotect, 2 munmap, 3 flush, 4 mmap), *before* the event
+/// takes effect. Empty; a harness binds a monitor onto `event_hook` with #[kani::stub].
+pub fn event_hook(_kind: u8) {}
+
 pub const fn bit(k: u32) -> u32 {
     1u32 << k
 }
@@ -62,7 +66,10 @@ pub fn on_panic(kind: u32, _line: u32) {
             assert!(libc::verif::N_EVENTS == 0, "OBL:panic.before-write: refusal must be raised before anything is mapped, protected or written");
         }
         if NEED_MEM_EQ {
-            assert!(mem_equals_snapshot(), "OBL:panic.untouched: code memory must be untouched when the installation is refused");
+            // for-all over the arena by a nondeterministic index (loop-free)
+            let i: usize = kani::any();
+            kani::assume(i < libc::verif::ARENA);
+            assert!(libc::verif::MEM[i] == SNAPSHOT[i], "OBL:panic.untouched: code memory must be untouched when the installation is refused");
         }
         if NEED_LIVE != usize::MAX {
             assert!(libc::verif::live_count() <= NEED_LIVE, "OBL:panic.no-pending-mapping: no rejected placement may be left mapped at the panic");
